@@ -5,6 +5,7 @@ import (
 	"fmt"
 	"math/rand"
 	"os"
+	"regexp"
 	"sort"
 	"strings"
 	"sync"
@@ -13,10 +14,43 @@ import (
 	"golang.org/x/tools/go/ssa"
 )
 
+// SourcePatch is either a literal replacement (Old must occur exactly once) or,
+// when Scope is set, a regular-expression replacement inside one function: the
+// scope starts at the single occurrence of Scope and ends at the next "\n}\n".
 type SourcePatch struct {
-	File string `json:"file"`
-	Old  string `json:"old"`
-	New  string `json:"new"`
+	File  string `json:"file"`
+	Old   string `json:"old,omitempty"`
+	New   string `json:"new,omitempty"`
+	Scope string `json:"scope,omitempty"`
+	Re    string `json:"re,omitempty"`
+	Repl  string `json:"repl,omitempty"`
+}
+
+func (p SourcePatch) apply(src string) (string, error) {
+	if p.Scope == "" {
+		if n := strings.Count(src, p.Old); n != 1 {
+			return "", fmt.Errorf("patch for %s does not apply (old text found %d times)", p.File, n)
+		}
+		return strings.Replace(src, p.Old, p.New, 1), nil
+	}
+	if n := strings.Count(src, p.Scope); n != 1 {
+		return "", fmt.Errorf("patch for %s does not apply (scope found %d times)", p.File, n)
+	}
+	re, err := regexp.Compile(p.Re)
+	if err != nil {
+		return "", err
+	}
+	a := strings.Index(src, p.Scope)
+	e := strings.Index(src[a:], "\n}\n")
+	if e < 0 {
+		return "", fmt.Errorf("patch for %s does not apply (scope has no end)", p.File)
+	}
+	body := src[a : a+e]
+	nb := re.ReplaceAllString(body, p.Repl)
+	if nb == body {
+		return "", fmt.Errorf("patch for %s does not apply (pattern not found in scope)", p.File)
+	}
+	return src[:a] + nb + src[a+e:], nil
 }
 
 type JobSpec struct {
